@@ -33,12 +33,16 @@ struct MockSender {
 	wire: Arc<Mutex<Vec<Vec<u8>>>>,
 	gated: bool,
 	waiting: Arc<AtomicBool>,
+	failnext: Arc<AtomicBool>,
 	permits: mpsc::UnboundedReceiver<()>,
 }
 impl TransportSenderT for MockSender {
 	type Error = MockErr;
 	fn send(&mut self, msg: String) -> impl Future<Output = Result<(), MockErr>> + Send {
 		async move {
+			if self.failnext.swap(false, Ordering::SeqCst) {
+				return Err(MockErr("injected send error"));
+			}
 			self.wire.lock().unwrap().push(msg.into_bytes());
 			if self.gated {
 				self.waiting.store(true, Ordering::SeqCst);
@@ -160,7 +164,8 @@ async fn run_case(line: &str) -> String {
 	let waiting = Arc::new(AtomicBool::new(false));
 	let (permit_tx, permit_rx) = mpsc::unbounded_channel();
 	let (frame_tx, frame_rx) = mpsc::unbounded_channel();
-	let sender = MockSender { wire: wire.clone(), gated, waiting: waiting.clone(), permits: permit_rx };
+	let failnext = Arc::new(AtomicBool::new(false));
+	let sender = MockSender { wire: wire.clone(), gated, waiting: waiting.clone(), failnext: failnext.clone(), permits: permit_rx };
 	let receiver = MockReceiver { frames: frame_rx };
 	let client = Arc::new(
 		ClientBuilder::new()
@@ -335,6 +340,9 @@ async fn run_case(line: &str) -> String {
 			}
 			"fault" => {
 				let _ = frame_tx.send(Err(()));
+			}
+			"failsend" => {
+				failnext.store(true, Ordering::SeqCst);
 			}
 			_ => return format!("?bad-event {}", t[0]),
 		}
